@@ -1,5 +1,6 @@
 import EmsModel.Lemmas.Clip
 import EmsModel.Lemmas.ClipCompose
+import EmsModel.Props.C07
 /-!
 # C08 — clipping keeps every selected value and blanks everything else
 
@@ -330,5 +331,53 @@ example : allBounds [("cell_mask", exMask)] = some [("y", 1, 3), ("x", 1, 3)] :=
 example : (clipVar [("cell_mask", exMask)] .maskable exVar).map (·.data) = some [some 4, some 5, none, some 8] := by decide +kernel
 example : (clipVar [("cell_mask", exMask)] .unmaskable exVar).map (·.data) = some [some 4, some 5, some 7, some 8] := by decide +kernel
 example : keptRows [false, true, true, false] = [1, 2] := by decide
+
+/-! ### end to end on a mesh
+
+`UGrid.apply_clip_mask` keeps the rows of the face dimension whose `new_face_index` is not masked.
+Composed with C07 (`kept_faces_spec`, `mesh_mask_spec`, `kept_faces_sorted`): the rows that survive are the
+faces within `buffer` node-sharing rings of a face whose polygon intersects the geometry, in their original
+order, and row `k` of every face variable after the clip is the row of the `k`-th such face before it. -/
+theorem mesh_clip_end_to_end [Inhabited α] {Poly Geom : Type} (intersects : Poly → Geom → Bool)
+    (polys : List (Option Poly)) (g : Geom) (m : Clip.FaceMesh) (hlen : polys.length = m.nFaces)
+    (hits : List Nat)
+    (hhits : ∀ n, n ∈ hits ↔ ∃ p, polys[n]? = some (some p) ∧ intersects p g = true)
+    (buffer : Int) (faceDim : String) (a : NArr α) (hwf : a.WF) :
+    let keep := (Clip.ugridClipMask m hits buffer).newFace.map Option.isSome
+    let K := Clip.keptFaces m hits buffer
+    keptRows keep = K ∧ K.Pairwise (· < ·) ∧
+    (∀ f, f ∈ K ↔ C07.Within m (fun n => ∃ p, polys[n]? = some (some p) ∧ intersects p g = true) buffer.toNat f) ∧
+    (∀ (e : Env) (v : String → Nat),
+      (∀ d ∈ a.dims, e.get d.1 = some (v d.1) ∧ v d.1 < (if d.1 == faceDim then K.length else d.2)) →
+      (∀ d ∈ a.dims, (if d.1 == faceDim then K.getD (v d.1) 0 else v d.1) < d.2) →
+      (a.selectRows faceDim keep).get? e =
+        a.get? (e.map fun p => (p.1, if p.1 == faceDim then K.getD p.2 0 else p.2))) := by
+  intro keep K
+  have hr : ∀ f ∈ hits, f < m.nFaces := by
+    intro f hf
+    obtain ⟨p, hp, _⟩ := (hhits f).mp hf
+    rw [← hlen]; exact (List.getElem?_eq_some_iff.mp hp).1
+  have hsorted : K.Pairwise (· < ·) := C07.kept_faces_sorted m hits buffer
+  have hmask := (C07.mesh_mask_spec m hits hr buffer).1
+  have hrows : keptRows keep = K := by
+    apply Clip.sorted_ext _ _ (keptRows_spec keep).2 hsorted
+    intro f
+    rw [(keptRows_spec keep).1 f, ← hmask f]
+    simp only [keep, C07.IsKept, List.getElem?_map]
+    constructor
+    · intro h
+      cases hx : (Clip.ugridClipMask m hits buffer).newFace[f]? with
+      | none => simp [hx] at h
+      | some o =>
+        cases o with
+        | none => simp [hx] at h
+        | some w => exact ⟨w, rfl⟩
+    · rintro ⟨w, hw⟩
+      simp [hw]
+  refine ⟨hrows, hsorted, C07.kept_faces_spec intersects polys g m hlen hits hhits buffer, ?_⟩
+  intro e v hv hin
+  have := selectRows_get a faceDim keep e v hwf (by rw [hrows]; exact hv) (by rw [hrows]; exact hin)
+  rw [hrows] at this
+  exact this
 
 end Ems.C08
